@@ -3,12 +3,16 @@
   (interp/typecheck.go `bitlen`, `representableConst`, integer arm).
 
   The choices made in the source text are parameters (`ReprFacts`): the `bitlen` table,
-  which go/constant accessor guards which kinds (`Int64Val` / `Uint64Val`), and the final
-  comparison. `Generated.C03.reprFacts` is regenerated from the source on every run.
+  which go/constant accessor guards which kinds (`Int64Val` / `Uint64Val`), whether the signed
+  arm goes on to the exact range test (the repair of F03) or falls through to the final `BitLen`
+  test (the code before the repair), and the comparison operators of both tests.
+  `Generated.C03.reprFacts` is regenerated from the source on every run.
 
   go/constant itself is not modelled: an integer constant is an `Int`, `constant.BitLen x`
   is the length of `|x|` in binary, `Int64Val`/`Uint64Val` succeed exactly on the 64-bit ranges
-  (documented behaviour; exercised by the correspondence run).
+  (documented behaviour; exercised by the correspondence run). The range test is Go run-time
+  arithmetic on `int64` with a `uint` shift count: it is modelled with its wrap-around
+  (`shl64`, `wrap64`, `uintPred`), so that a mutated `bitlen` entry (0, or above 64) is followed too.
 -/
 namespace YaegiVerif.Const
 
@@ -42,25 +46,42 @@ def minVal (k : IKind) : Int := if k.signed then -(2 ^ (k.bits - 1) : Int) else 
 def maxVal (k : IKind) : Int := if k.signed then (2 ^ (k.bits - 1) : Int) - 1 else (2 ^ k.bits : Int) - 1
 end IKind
 
-/-- which go/constant accessor guards a kind in the inner `switch t.Kind()` of representableConst -/
+/-- what the arm of a kind does in the inner `switch t.Kind()` of representableConst -/
 inductive PreCheck where
-  | int64Val      -- `if _, ok := constant.Int64Val(x); !ok { return false }`
-  | uint64Val     -- `if _, ok := constant.Uint64Val(x); !ok { return false }`
-  | reject        -- the `default: return false` arm (kind not listed)
+  /-- `v, ok := constant.Int64Val(x); if !ok { return false }; s := uint(bitlen[t.Kind()]);
+      return -1<<(s-1) <lo> v && v <hi> 1<<(s-1)-1` — the exact range of a signed width (since the repair of F03) -/
+  | int64Range
+  /-- `if _, ok := constant.Int64Val(x); !ok { return false }`, then the final `BitLen` test
+      (the signed arm before the repair of F03; kept so that a reverted source is followed by the model) -/
+  | int64Val
+  /-- `if _, ok := constant.Uint64Val(x); !ok { return false }`, then the final `BitLen` test -/
+  | uint64Val
+  /-- the `default: return false` arm (kind not listed) -/
+  | reject
   deriving DecidableEq, Repr, Inhabited
 
-/-- the comparison of the last statement `return constant.BitLen(x) <op> bitlen[t.Kind()]` -/
+/-- a comparison operator read from the source: of the last statement
+    `return constant.BitLen(x) <op> bitlen[t.Kind()]`, and of the two halves of the signed range test -/
 inductive Cmp where
   | le | lt | other
   deriving DecidableEq, Repr, Inhabited
 
+def Cmp.test (c : Cmp) (a b : Int) : Bool :=
+  match c with
+  | .le => decide (a ≤ b)
+  | .lt => decide (a < b)
+  | .other => false
+
 structure ReprFacts where
   /-- `var bitlen = [...]int{ reflect.Int: 64, … }` as (kind, value) pairs in source order -/
   bitlen : List (IKind × Nat)
-  /-- the case lists of the inner switch of representableConst, flattened to (kind, guard) -/
+  /-- the case lists of the inner switch of representableConst, flattened to (kind, arm) -/
   pre : List (IKind × PreCheck)
   /-- comparison operator of the final BitLen test -/
   cmp : Cmp
+  /-- comparison operators of the signed range test: `-1<<(s-1) <lo> v` and `v <hi> 1<<(s-1)-1` -/
+  lo : Cmp
+  hi : Cmp
   deriving DecidableEq, Repr
 
 def ReprFacts.bitlenOf (f : ReprFacts) (k : IKind) : Nat :=
@@ -79,32 +100,43 @@ def bitLen (v : Int) : Nat := if v = 0 then 0 else v.natAbs.log2 + 1
 def int64Ok (v : Int) : Bool := decide (-(2 ^ 63 : Int) ≤ v) && decide (v < (2 ^ 63 : Int))
 def uint64Ok (v : Int) : Bool := decide (0 ≤ v) && decide (v < (2 ^ 64 : Int))
 
+/-- Go's `int64` wrap-around of an exact result -/
+def wrap64 (v : Int) : Int := (v + 2 ^ 63) % 2 ^ 64 - 2 ^ 63
+
+/-- Go's `x << n` for an `int64` `x` and a `uint` count `n` (0 once the count reaches the width) -/
+def shl64 (x : Int) (n : Nat) : Int := if n < 64 then wrap64 (x * 2 ^ n) else 0
+
+/-- Go's `s - 1` for a `uint` `s` (64-bit platform) -/
+def uintPred (s : Nat) : Nat := if s = 0 then 2 ^ 64 - 1 else s - 1
+
+/-- the final statement `return constant.BitLen(x) <cmp> bitlen[t.Kind()]` -/
+def bitLenTest (f : ReprFacts) (k : IKind) (v : Int) : Bool :=
+  match f.cmp with
+  | .le => decide (bitLen v ≤ f.bitlenOf k)
+  | .lt => decide (bitLen v < f.bitlenOf k)
+  | .other => false
+
+/-- the range test of the signed arm: `s := uint(bitlen[t.Kind()]); return -1<<(s-1) <lo> v && v <hi> 1<<(s-1)-1`
+    (`v` is an int64 here; the untyped constants `-1` and `1` take the type of `v`) -/
+def rangeTest (f : ReprFacts) (k : IKind) (v : Int) : Bool :=
+  let c := uintPred (f.bitlenOf k)
+  f.lo.test (shl64 (-1) c) v && f.hi.test v (wrap64 (shl64 1 c - 1))
+
 /-- the integer arm of `representableConst` for an integer constant `v` -/
 def reprY (f : ReprFacts) (k : IKind) (v : Int) : Bool :=
-  (match f.preOf k with
-   | .int64Val => int64Ok v
-   | .uint64Val => uint64Ok v
-   | .reject => false) &&
-  (match f.cmp with
-   | .le => decide (bitLen v ≤ f.bitlenOf k)
-   | .lt => decide (bitLen v < f.bitlenOf k)
-   | .other => false)
+  match f.preOf k with
+  | .int64Range => int64Ok v && rangeTest f k v
+  | .int64Val => int64Ok v && bitLenTest f k v
+  | .uint64Val => uint64Ok v && bitLenTest f k v
+  | .reject => false
 
-/-- the values yaegi accepts for a *signed* kind but Go does not (F03):
-    `max < v < 2^bits` or `-2^bits < v < min`, within the int64 range (empty for the 64-bit kinds) -/
+/-- the values that the signed arm accepted before the repair of F03 (final `BitLen` test, which ignores the
+    sign) and Go does not: `max < v < 2^bits` or `-2^bits < v < min`, within the int64 range (empty for the
+    64-bit kinds). Kept for `representable_bitlen_form_gap`, which states what a reverted repair would do. -/
 def inSignedGap (k : IKind) (v : Int) : Bool :=
   k.signed && int64Ok v &&
     ((decide (k.maxVal < v) && decide (v < (2 ^ k.bits : Int))) ||
      (decide (-(2 ^ k.bits : Int) < v) && decide (v < k.minVal)))
-
-/-- a repair candidate for F03, as go/types does it: after the 64-bit guard compare the value with the
-    bounds of the width taken from the same table (`s := bitlen[kind]`):
-    signed `-(1<<(s-1)) <= x && x <= 1<<(s-1)-1`, unsigned `BitLen(x) <= s` (unchanged). -/
-def reprFixed (f : ReprFacts) (k : IKind) (v : Int) : Bool :=
-  match f.preOf k with
-  | .int64Val => int64Ok v && decide (-(2 ^ (f.bitlenOf k - 1) : Int) ≤ v) && decide (v ≤ (2 ^ (f.bitlenOf k - 1) : Int) - 1)
-  | .uint64Val => uint64Ok v && decide (bitLen v ≤ f.bitlenOf k)
-  | .reject => false
 
 /-! ### facts about folding (interp/cfg.go `constOp`, interp/op.go `*Const`) -/
 
